@@ -2706,8 +2706,16 @@ static void struct_members(Token **rest, Token *tok, Type *ty) {
       mem->align = attr.align ? attr.align : mem->ty->align;
 
       if (consume(&tok, tok, ":")) {
+        Token *start = tok;
+        long width = const_expr(&tok, tok);
+        if (!is_integer(mem->ty))
+          error_tok(start, "bit-field has a non-integer type");
+        if (width < 0 || width > mem->ty->size * 8)
+          error_tok(start, "width of bit-field exceeds its type");
+        if (width == 0 && mem->name)
+          error_tok(start, "named bit-field has zero width");
         mem->is_bitfield = true;
-        mem->bit_width = const_expr(&tok, tok);
+        mem->bit_width = width;
       }
 
       cur = cur->next = mem;
